@@ -783,7 +783,7 @@ let node_case (line : string) : string =
     let connect = (match words head with ["node"; c] -> c = "1" | _ -> failwith "bad node head") in
     let cfg = mk_cfg owned_arms [] [] in
     let st = ref (node_init node_name_bytes (n_of_int 7) connect) in
-    let pids = ref [] and refs = ref [] and sent_calls = ref [] and ncalls = ref 0 and printed = ref [] in
+    let pids = ref [] and refs = ref [] and sent_calls = ref [] and ncalls = ref 0 and printed = ref [] and burst = ref false in
     let do_op o = let (st', u) = step cfg !st o in st := st'; u in
     let pid_arg (t : toks) : pidr =
       (match t.l with
@@ -821,6 +821,10 @@ let node_case (line : string) : string =
           (match u with
            | UOk -> (match List.rev !st.n_pending with (rp, _) :: _ when List.length !st.n_pending > List.length before -> sent_calls := !sent_calls @ [rp] | _ -> ()); "ok"
            | _ -> "err")
+      | "burst" -> let k = int_of_string (next t) in let n = int_of_string (next t) in
+          (* concurrent senders: the interleaving is the scheduler's; the model states (Conc/Interleave.v) what every
+             interleaving satisfies, the bytes are judged by the oracle *)
+          burst := true; if !st.n_connected then Printf.sprintf "sent %d" (k * n) else "sent 0"
       | "expire" -> ignore (do_op OExpire); "-"
       | "frame" -> ignore (do_op (OFrame (bytes_of_hex (next t)))); "-"
       | "tick" -> ignore (do_op (OFrame [])); "-"
@@ -831,6 +835,17 @@ let node_case (line : string) : string =
           (match List.nth_opt !sent_calls i with
            | Some rp -> (match frame_to rp body with Some b -> ignore (do_op (OFrame b)) | None -> ())
            | None -> ()); "-"
+      | "replystale" ->
+          let i = (let s = next t in int_of_string (String.sub s 1 (String.length s - 1))) in
+          let what = next t in
+          let body = rd_term cmp_owned t in
+          (match List.nth_opt !sent_calls i with
+           | Some rp ->
+               let one = n_of_int 1 in
+               let other = (if what = "creation" then { rp with pcreation = N.add rp.pcreation one } else { rp with pserial = N.add rp.pserial one }) in
+               (match frame_to other body with Some b -> ignore (do_op (OFrame b)) | None -> ())
+           | None -> ()); "-"
+      | "quiet" -> ignore (next t); "-"
       | "replyto" -> let p = pid_arg t in let body = rd_term cmp_owned t in
           (match frame_to p body with Some b -> ignore (do_op (OFrame b)) | None -> ()); "-"
       | "overlong" -> ignore (do_op OOverlong); "-"
@@ -855,7 +870,7 @@ let node_case (line : string) : string =
           (match List.find_opt same !st.n_procs with
            | Some x -> show_lmsgs x.pevents
            | None -> (match List.find_opt same !st.n_gone with Some x -> show_lmsgs x.pevents | None -> "-"))
-      | "wrote" -> hex_of_bytes (List.concat !st.n_wrote)
+      | "wrote" -> if !burst then "BURST" else hex_of_bytes (List.concat !st.n_wrote)
       | x -> failwith ("bad node step " ^ x)) steps in
     String.concat " ;; " outs
 
